@@ -19,6 +19,7 @@ import (
 	"github.com/named-data/ndnd/dv/table"
 	enc "github.com/named-data/ndnd/std/encoding"
 	"github.com/named-data/ndnd/std/ndn"
+	mgmt "github.com/named-data/ndnd/std/ndn/mgmt_2022"
 	spec "github.com/named-data/ndnd/std/ndn/spec_2022"
 	ndn_sync "github.com/named-data/ndnd/std/sync"
 )
@@ -59,6 +60,7 @@ type pfxCase struct {
 	pubCfg   *config.Config
 	pubEng   *fakeEngine
 	pubPT    *table.PrefixTable
+	pubRtr   *dv.Router // non-nil when the publisher lives inside a dv.Router (kind "r")
 	peers    map[int]*pfxPeer
 	snapWire map[uint64]enc.Wire // harness-side cache: snapshot packets seen at the SNAP pointer, by sequence number
 	nbName   enc.Name
@@ -91,6 +93,13 @@ func newPfxCase(w *bufio.Writer, s0 uint64, kind string, seed int64) *pfxCase {
 	for _, s := range pfxPoolStr {
 		c.pool = append(c.pool, mustName(s))
 	}
+	seen := map[uint64]string{}
+	for _, n := range c.pool {
+		if o, ok := seen[n.Hash()]; ok && o != n.String() {
+			panic("hash collision in the generated universe")
+		}
+		seen[n.Hash()] = n.String()
+	}
 	c.nbName = mustName("/net/nb")
 	c.pubEng = newFakeEngine(seed)
 	if kind == "r" {
@@ -103,6 +112,7 @@ func newPfxCase(w *bufio.Writer, s0 uint64, kind string, seed int64) *pfxCase {
 		}
 		c.pubCfg = cfg
 		c.pubPT = r.Vf19Pfx()
+		c.pubRtr = r
 	} else {
 		c.pubCfg = mkConfig("/net/pub")
 		svs := ndn_sync.NewSvSync(c.pubEng, c.pubCfg.PrefixTableSyncPrefix(), func(ndn_sync.SvSyncUpdate) {})
@@ -127,6 +137,38 @@ func (c *pfxCase) askPublisher(interestWire enc.Wire) enc.Wire {
 	c.pubPT.OnDataInterest(ndn.InterestHandlerArgs{Interest: i, RawInterest: interestWire,
 		Reply: func(w enc.Wire) error { got = w; return nil }})
 	return got
+}
+
+// minimal ndn.Interest carrying only a name (readvertiseOnInterest reads nothing else)
+type nameOnlyInterest struct{ name enc.Name }
+
+func (i nameOnlyInterest) Name() enc.Name             { return i.name }
+func (i nameOnlyInterest) CanBePrefix() bool          { return false }
+func (i nameOnlyInterest) MustBeFresh() bool          { return false }
+func (i nameOnlyInterest) ForwardingHint() []enc.Name { return nil }
+func (i nameOnlyInterest) Nonce() *uint64             { return nil }
+func (i nameOnlyInterest) Lifetime() *time.Duration   { return nil }
+func (i nameOnlyInterest) HopLimit() *uint            { return nil }
+func (i nameOnlyInterest) AppParam() enc.Wire         { return nil }
+func (i nameOnlyInterest) Signature() ndn.Signature   { return nil }
+
+func (c *pfxCase) readvertise(register bool, prefix enc.Name) {
+	params := &mgmt.ControlParameters{Val: &mgmt.ControlArgs{Name: prefix}}
+	verb := "unregister"
+	if register {
+		verb = "register"
+	}
+	name := append(c.pubCfg.ReadvertisePrefix().Clone(),
+		enc.NewStringComponent(enc.TypeGenericNameComponent, "rib"),
+		enc.NewStringComponent(enc.TypeGenericNameComponent, verb),
+		enc.NewBytesComponent(enc.TypeGenericNameComponent, params.Encode().Join()),
+		enc.NewBytesComponent(enc.TypeParametersSha256DigestComponent, make([]byte, 32)))
+	replied := false
+	c.pubRtr.Vf19ReadvertiseOnInterest(ndn.InterestHandlerArgs{Interest: nameOnlyInterest{name},
+		Reply: func(w enc.Wire) error { replied = true; return nil }})
+	if !replied {
+		panic("readvertise handler did not reply")
+	}
 }
 
 func dataSeq(wire enc.Wire) (uint64, ndn.Data, enc.Wire) {
@@ -261,6 +303,19 @@ func (c *pfxCase) exec(op string) {
 	}
 	atoi := func(s string) int { v, _ := strconv.Atoi(s); return v }
 	switch f[0] {
+	case "ra", "rw": // the same through the readvertise handler (/localhost/nlsr/rib/(un)register/<params>/<digest>)
+		if c.pubRtr == nil {
+			if f[0] == "ra" {
+				c.pubPT.Announce(c.pool[atoi(f[1])-1])
+			} else {
+				c.pubPT.Withdraw(c.pool[atoi(f[1])-1])
+			}
+		} else {
+			c.readvertise(f[0] == "ra", c.pool[atoi(f[1])-1])
+		}
+		synctest.Wait()
+		c.obsPub()
+		return
 	case "pa":
 		c.pubPT.Announce(c.pool[atoi(f[1])-1])
 		synctest.Wait()
@@ -358,7 +413,13 @@ func genPfxCase(w *bufio.Writer, rng *rand.Rand, k int, budget int) []string {
 	fmt.Fprintln(w, hdr)
 	ops = append(ops, hdr)
 	c.obsPub()
-	do := func(op string) { ops = append(ops, op); c.exec(op) }
+	do := func(op string) {
+		if kind == "r" && (strings.HasPrefix(op, "pa ") || strings.HasPrefix(op, "pw ")) && rng.Intn(2) == 0 {
+			op = "r" + op[1:] // through the readvertise Interest handler
+		}
+		ops = append(ops, op)
+		c.exec(op)
+	}
 	nPeers := 1 + rng.Intn(3)
 	created := 0
 	inSet := map[int]bool{}
@@ -485,7 +546,7 @@ func replayPfxCase(w *bufio.Writer, ops []string) {
 		if (f[0] == "jsync" || f[0] == "ans") && len(f) > 3 {
 			op = strings.Join(f[:3], " ")
 		}
-		if f[0] != "pa" && f[0] != "pw" && f[0] != "jnew" {
+		if f[0] != "pa" && f[0] != "pw" && f[0] != "ra" && f[0] != "rw" && f[0] != "jnew" {
 			if j, _ := strconv.Atoi(f[1]); c.peers[j] == nil {
 				continue // shrinking may have removed the peer's creation
 			}
